@@ -74,8 +74,11 @@ pub enum AtomKind {
     /// existence of a nodelist (`@.w.*`, `@.w[0:2]`, `@.w..*`): true for one or several nodes whatever
     /// their values are, empty strings / arrays / objects included
     ExistsSeveral,
+    /// a nested filter that is *not* the last segment of the test query, `@.n[?@.r].d`: true when some kept
+    /// child has `d` - not necessarily the first kept one
+    NestedThenMore,
 }
-pub const KINDS: [AtomKind; 13] = [
+pub const KINDS: [AtomKind; 14] = [
     AtomKind::Exists,
     AtomKind::CmpEq,
     AtomKind::Match,
@@ -89,6 +92,7 @@ pub const KINDS: [AtomKind; 13] = [
     AtomKind::CmpTwoQueries,
     AtomKind::ExistsNegIndex,
     AtomKind::ExistsSeveral,
+    AtomKind::NestedThenMore,
 ];
 
 fn nm(s: &str) -> StrLit {
@@ -184,6 +188,17 @@ fn atom_expr(kind: AtomKind, i: usize) -> (Expr, bool) {
                 Box::new(Cmpable::Sing(Sing { abs: false, steps: vec![SingStep::Name(nm(&format!("o{}", i)), true)] })),
             ),
             false,
+        ),
+        AtomKind::NestedThenMore => (
+            Expr::Test(
+                false,
+                Box::new(TestE::Q(rel(vec![
+                    nseg(&format!("n{}", i)),
+                    Seg { desc: false, sels: vec![Sel::Filter(Expr::Test(false, Box::new(TestE::Q(rel(vec![nseg("r")])))))], dot: false },
+                    nseg("d"),
+                ]))),
+            ),
+            true,
         ),
         AtomKind::ExistsSeveral => (
             Expr::Test(
@@ -351,6 +366,34 @@ fn atom_members(src: &mut Src, kind: AtomKind, i: usize, truth: bool, out: &mut 
                         out.push((p, J::Str("4".into())));
                         out.push((o, J::Int(4)));
                     }
+                }
+            }
+        }
+        AtomKind::NestedThenMore => {
+            let n = format!("n{}", i);
+            let kept = |d: Option<J>| {
+                let mut m = vec![("r".to_string(), J::Int(1))];
+                if let Some(d) = d {
+                    m.push(("d".to_string(), d));
+                }
+                J::Obj(m)
+            };
+            let hollow = src.pick(&[J::Null, J::Bool(false), J::Int(0), J::Str("".into()), J::Arr(vec![])]).clone();
+            if truth {
+                // the kept child that has `d` comes first, last, or in the middle of kept children without it
+                let items = match src.below(4) {
+                    0 => vec![kept(Some(hollow))],
+                    1 => vec![kept(None), kept(Some(hollow))],
+                    2 => vec![kept(None), J::Obj(vec![("d".to_string(), J::Int(1))]), kept(None), kept(Some(hollow)), kept(None)],
+                    _ => vec![J::Int(3), kept(None), kept(None), kept(Some(hollow))],
+                };
+                out.push((n, J::Arr(items)));
+            } else {
+                match src.below(4) {
+                    0 => {}
+                    1 => out.push((n, J::Arr(vec![kept(None), kept(None)]))),
+                    2 => out.push((n, J::Arr(vec![J::Obj(vec![("d".to_string(), J::Int(1))]), kept(None)]))),
+                    _ => out.push((n, J::Arr(vec![]))),
                 }
             }
         }
@@ -558,7 +601,7 @@ fn check_formula_on(f: &F, more: &[F], k: usize, kinds: &[AtomKind], src: &mut S
     let v = doc.to_value();
     let map = node_map(&v);
     obs.eval(1);
-    let nested = kinds[..k].iter().any(|x| matches!(x, AtomKind::NestedQ | AtomKind::NestedSelf | AtomKind::NestedDesc | AtomKind::NestedUnion));
+    let nested = kinds[..k].iter().any(|x| matches!(x, AtomKind::NestedQ | AtomKind::NestedSelf | AtomKind::NestedDesc | AtomKind::NestedUnion | AtomKind::NestedThenMore));
     let varying = !exp_ids.is_empty() && exp_ids.len() < children.len() * all_fs.len() * if multi { 2 } else { 1 };
     if !more.is_empty() {
         obs.label("several-filter-selectors");
